@@ -65,6 +65,7 @@ def run_C14(ctx, R):
     _per_config(ctx, R, eff.eff3)
     from .rules import own
     _per_config(ctx, R, own.own5)
+    _per_config(ctx, R, own.dbl1)
     for cfg in ctx.configs():
         r = Results(config=cfg)
         eff.eff1_ir(ctx.ir(cfg), r)
@@ -175,6 +176,8 @@ def run_C17(ctx, R):
     _per_config(ctx, R, lambda units, r: utilsx.inputs_only_relinked(units, r, roots=('create_patches',)))
     _per_config(ctx, R, _own_utils({'create_patches', 'compose_patch', 'cJSONUtils_GeneratePatches', 'cJSONUtils_GeneratePatchesCaseSensitive'}))
     _scoped(ctx, R, tab.tab20, C17_ENTRIES, 0)
+    from .rules import cmpfold
+    _per_config(ctx, R, lambda units, r: cmpfold.cmp1(units, r, unit_names=('cJSON_Utils.c',)))
     _scoped(ctx, R, out.out7, C17_ENTRIES, 3)
     _scoped(ctx, R, utilsx.esc1, C17_ENTRIES, 1)
     _per_config(ctx, R, tab.tab9)
@@ -202,6 +205,8 @@ def run_C19(ctx, R):
     _per_config(ctx, R, lst.lst5)
     from .rules import shape
     _per_config(ctx, R, shape.shp2, configs=['cmake'])     # the sorter has no configuration-dependent code
+    from .rules import cmpfold
+    _per_config(ctx, R, lambda units, r: cmpfold.cmp1(units, r, unit_names=('cJSON_Utils.c',)))
     _scoped(ctx, R, tab.tab11, C19_ENTRIES, 4)
 
 
@@ -271,7 +276,8 @@ CORE_MUTATORS = {'add_item_to_array', 'add_item_to_object', 'cJSON_DetachItemVia
 
 
 def run_C06(ctx, R):
-    from .rules import lst, tree, parse
+    from .rules import lst, tree, parse, cmpfold
+    _per_config(ctx, R, lambda units, r: cmpfold.cmp1(units, r, unit_names=('cJSON.c',)))
 
     def core_lst1(units, r):
         tmp = Results(config=r.config)
@@ -305,7 +311,8 @@ def run_C11(ctx, R):
 
 
 def run_C12(ctx, R):
-    from .rules import tree, tab
+    from .rules import tree, tab, cmpfold
+    _per_config(ctx, R, lambda units, r: cmpfold.cmp1(units, r, unit_names=('cJSON.c',)))
     _per_config(ctx, R, tree.eff6)
     _per_config(ctx, R, tree.c12_structure)
     _per_config(ctx, R, _only_functions(tree.tab3, {'cJSON_Compare', 'cJSON_IsInvalid', 'cJSON_IsFalse', 'cJSON_IsTrue', 'cJSON_IsBool',
@@ -390,6 +397,7 @@ def run_C07(ctx, R):
     from .rules import own, tree, lst
     _per_config(ctx, R, own.own5)
     _per_config(ctx, R, own.del1)
+    _per_config(ctx, R, own.dbl1)
     _per_config(ctx, R, own.own6)
     _per_config(ctx, R, own.own4_dangling)
     _per_config(ctx, R, _own_cjson)
@@ -497,7 +505,9 @@ PROPERTIES = {
             "a test of the ownership bit that describes that memory, on the same node, with no store to that node's type "
             "between entry and the test. OWN6: the key parameter is not read after the item's own key was released (the key "
             "may alias it). OWN4: no block is released twice or used after release on any path (typestate engine), and a "
-            "released field of longer-lived memory is overwritten before return. OWN2/OWN3: what a function allocates it "
+            "released field of longer-lived memory is overwritten before return. DBL1: blocks the function did not allocate itself (a field of "
+            "a parameter, the print buffer): between two releases of the same access path on a feasible path (conditions passed are "
+            "remembered) the path is assigned; a successful reallocate counts as a release of its argument. OWN2/OWN3: what a function allocates it "
             "releases, links or returns on every path, including the failure outcomes of consume-on-success callees whose "
             "summaries are re-checked against their bodies. TAB14: the duplicator clears the reference bit and shares only "
             "constant keys. REFC: reference constructors clear the key, set the reference bit and clear both links; "
@@ -520,6 +530,7 @@ PROPERTIES = {
     'C06': {
         'run': run_C06, 'modules': ['tree', 'utils'],
         'explanation':
+            "CMP1: the case-insensitive key comparator explored over all 65536 pairs of byte values: the loop continues exactly when the ASCII-folded bytes agree and are not the terminator, returns 0 exactly at a common terminator and non-zero otherwise (static helpers and <ctype.h> evaluated in the C locale); before the loop a zero result needs identical pointers. "
             "The sibling-chain consistency sentence of the property as maintenance obligations on every mutator of cJSON.c. "
             "LST1: every path through a store X->child = V passes a store to V->prev / X->child->prev (unless V is NULL on "
             "that path or the container is released). LST2: the unlink, take-over (replace), insert-before, append and "
@@ -555,6 +566,7 @@ PROPERTIES = {
     'C12': {
         'run': run_C12, 'modules': ['tree', 'utils'],
         'explanation':
+            "CMP1: the case-insensitive key comparator explored over all 65536 pairs of byte values: the loop continues exactly when the ASCII-folded bytes agree and are not the terminator, returns 0 exactly at a common terminator and non-zero otherwise (static helpers and <ctype.h> evaluated in the C locale); before the loop a zero result needs identical pointers. "
             "EFF6: cJSON_Compare and everything it calls store only to their own locals and call only pure functions, so the "
             "arguments are never modified. C12S: in the array arm `return true` is reachable only with both element cursors "
             "exhausted (nullness facts by dataflow); in the object arm members are looked up in both objects, every lookup "
@@ -630,8 +642,10 @@ PROPERTIES = {
             "callee can use it; cJSON_malloc/cJSON_free forward to the table; cJSON_Utils.c has no indirect call. "
             "EFF3: every reallocate call is dominated by a non-NULL test of the same member, and every path through "
             "the installing function leaves reallocate NULL unless allocate/deallocate are the libc defaults, restores "
-            "defaults for a NULL argument or NULL members. Decides the property except 'exactly once' (C07).",
-        'not_decided': ["'released exactly once' (C07/C08 rules)", 'behaviour of user-supplied hooks'],
+            "defaults for a NULL argument or NULL members. DBL1: no access path is handed to the release function twice on "
+            "a feasible path without a store in between (a successful reallocate counts as a release of its argument). "
+            "The 'not lost' half of exactly-once is C07/C08's (OWN2).",
+        'not_decided': ["'no block is lost' (C07/C08 rules)", 'behaviour of user-supplied hooks'],
     },
     'C20': {
         'run': run_C20,
@@ -692,6 +706,7 @@ PROPERTIES = {
     'C17': {
         'run': run_C17, 'modules': ['utils', 'own'],
         'explanation':
+            "CMP1: compare_strings over all 65536 byte pairs per flag value: exact mode is strcmp of the two arguments; folding mode continues exactly on fold-equal non-terminator pairs, returns 0 at a common terminator and otherwise a value with the sign of the folded difference (lower or upper fold, one of them throughout), because the sorter and the generator look at the sign. "
             "Path construction and input preservation clauses of patch generation. OUT7: each path buffer (compose_patch, "
             "create_patches array and object arms) is sized for what is written, with the encoded length taken of the "
             "same key that is encoded and the key appended exactly where the text so far ends. ESC1: member names reach pointer "
@@ -719,6 +734,7 @@ PROPERTIES = {
     'C19': {
         'run': run_C19, 'modules': ['utils'],
         'explanation':
+            "CMP1: compare_strings over all 65536 byte pairs per flag value: exact mode is strcmp of the two arguments; folding mode continues exactly on fold-equal non-terminator pairs, returns 0 at a common terminator and otherwise a value with the sign of the folded difference (lower or upper fold, one of them throughout), because the sorter and the generator look at the sign. "
             "The 'healthy tree afterwards' and 'same nodes' sentences. LST1: every function of both units that stores a "
             "non-null child pointer also stores the first child's prev (sort_object included; every internal sorter goes "
             "through sort_object: LST5). LST5: sort_list assigns only next/prev, allocates and releases nothing, calls "
